@@ -258,9 +258,17 @@ def plugin_api_cpp():
                        funcs_cpp=["extern const TypeLayout *ROOT_LAYOUT;", "int32_t load_plugin(ReprCStr name, MaybeUninit<PluginInnerArcBox> *ok_out);"])
 
 
-def random_cpp(seed, fnptr=False, wrapped=False, layout=False, plain=False, wrapped_ctx=None):
+def random_cpp(seed, fnptr=False, wrapped=False, layout=False, plain=False, wrapped_ctx=None, force_ctx=None):
     import random
     m = emit.random_model(seed, fnptr=fnptr, wrapped=wrapped, plain=plain, wrapped_ctx=wrapped_ctx)
+    if force_ctx is not None:
+        # a header with one kind of context only
+        seen_r, roots = set(), []
+        for (k_, n_, i_, _c) in m.roots:
+            if (k_, n_, i_) not in seen_r:
+                seen_r.add((k_, n_, i_))
+                roots.append((k_, n_, i_, force_ctx))
+        m.roots = roots
     rng = random.Random(seed ^ 0x5eed)
     # now and then an argument whose type is a template with two parameters written out in the signature (CTup2<A, B>): the comma inside `<>` is not an argument separator
     for t in m.traits.values():
